@@ -17,8 +17,8 @@ Two hypotheses appear where they are needed and nowhere else:
 * `holderNotNamed` (only for the equality): nobody sends coins to the holder directly.
 
 Section 7 goes beyond the anchored files: genesis export followed by import.  There the clause
-"never lost" is FALSE of the code; `regenesis_can_lose_funds` is the witness (replayed on the
-implementation, known_findings.json) and `regenesis_preserves_partial` is what does hold.
+"never lost" is FALSE of the code; `regenesis_can_lose_funds_observation` is the witness and
+`regenesis_preserves_partial_observation` is what does hold.  Both belong to C18, not to C07; see observations/.
 -/
 import PvProofs.Lemmas.QuarRun
 
@@ -422,14 +422,19 @@ theorem index_complete_always (s0 : State) (ops : List Op) (inv : StoreInv s0) {
     (hff : f ∈ froms) : r ∈ getQuarantineRecords (run s0 ops) to froms :=
   index_complete (store_invariant s0 ops inv) hmem hf hff
 
-/-! ### 7. beyond the anchored files: genesis export followed by import -/
+/-! ### 7. observations beyond C07: genesis export followed by import
 
-/-- **Export/import keeps every quarantined coin on record — partial.**
-Full statement (FALSE of the code, see `regenesis_can_lose_funds`): after `ExportGenesis` followed
+These two statements are NOT part of property C07 (whose quantifier has no genesis operation);
+they belong to C18 (genesis round trip); see `observations/C07.md` and
+`observations/C18-quarantine-genesis-merge.patch`.  The C07 check evaluates no verdict on `regenesis`
+lines (the op is in the stream as a correspondence op only). -/
+
+/-- (belongs to C18; see observations/) **Export/import keeps every quarantined coin on record — partial.**
+Full statement (FALSE of the code, see `regenesis_can_lose_funds_observation`): after `ExportGenesis` followed
 by `InitGenesis` the total on record is what it was.  Proved here under the hypothesis that is
 missing in the code: no two exported entries share receiver and unaccepted-sender set (true
 whenever no multi-sender record is partially accepted). -/
-theorem regenesis_preserves_partial {s s' : State} (inv : StoreInv s) (order : List GenFunds → List GenFunds)
+theorem regenesis_preserves_partial_observation {s s' : State} (inv : StoreInv s) (order : List GenFunds → List GenFunds)
     (hperm : ∀ l, (order l).Perm l)
     (hdistinct : ((exportGenesis s).map fun g => (g.to, createRecordSuffix g.unacc)).Nodup)
     (h : regenesis s order = .ok s') : ∀ d, outstanding s' d = outstanding s d := by
@@ -522,11 +527,11 @@ example : (("C", ["A"]), (⟨["A"], [], [("aaa", 5)], false⟩ : Record)) ∈ (r
 example : (("C", ["A", "B"]), (⟨["A", "B"], [], [("aaa", 3)], false⟩ : Record)) ∈ s4.recs := by decide
 example : (getQuarantineRecords s4 "C" ["B"]).length = 2 := by decide
 
-/-- **Export/import can lose quarantined funds (witness).** In the reachable state `run s0 ops`
+/-- (belongs to C18; see observations/) **Export/import can lose quarantined funds (witness).** In the reachable state `run s0 ops`
 (a partially accepted record `C<A+B` with unaccepted `[B]` next to the record `C<B`), exporting
 and importing genesis leaves 2aaa or 3aaa on record out of 5aaa (depending on which of the two
 entries is imported last), while the holder still has all 5aaa: the rest can never be accepted. -/
-theorem _root_.PvProofs.C07.regenesis_can_lose_funds :
+theorem _root_.PvProofs.C07.regenesis_can_lose_funds_observation :
     outstanding (run s0 ops) "aaa" = 5 ∧
     (∀ s', regenesis (run s0 ops) id = .ok s' → outstanding s' "aaa" = 2 ∧ Ledger.bal s'.bank "H" "aaa" = 5) ∧
     (∀ s', regenesis (run s0 ops) List.reverse = .ok s' → outstanding s' "aaa" = 3 ∧ Ledger.bal s'.bank "H" "aaa" = 5) ∧
@@ -539,7 +544,7 @@ theorem _root_.PvProofs.C07.regenesis_can_lose_funds :
     rw [regenesis_ok_eq h]
     decide
 
--- hypotheses of `regenesis_preserves_partial`: before C accepts A nothing is partially accepted
+-- hypotheses of `regenesis_preserves_partial_observation`: before C accepts A nothing is partially accepted
 example : ((exportGenesis s4).map fun g => (g.to, createRecordSuffix g.unacc)).Nodup := by decide
 example : (regenesis s4 id).toBool = true := by decide
 
